@@ -163,6 +163,12 @@ def one_run(base, run, acc, tag='r', prop='C07'):
     if run[4] == 'ffwarn' and n_link != N_RES - 1:
         sig, desc = 'cli:link-warning-not-per-match', ('the warning of a force-field link that applies %d times was logged %d time(s): '
                                                       'every application counts against -maxwarn' % (N_RES - 1, n_link))
+    elif sum(1 for level, typ, _ in collector.records if level >= logging.WARNING and typ == 'pdb-alternate') != (
+            int(run[0][3:]) if run[0].startswith('alt') else 0):
+        # the input holds exactly that many atom records with an alternate location other than A: one warning each
+        sig, desc = 'cli:alternate-warning-count', 'the input has %s atom record(s) with alternate location B, %d pdb-alternate warning(s) were logged' % (
+            run[0][3:] if run[0].startswith('alt') else '0',
+            sum(1 for level, typ, _ in collector.records if level >= logging.WARNING and typ == 'pdb-alternate'))
     elif leftover > 0:
         changed = sorted(k for k in set(before) | set(after) if before.get(k) != after.get(k) and not is_dump(k))
         if res['exit'] == 0:
